@@ -573,7 +573,7 @@ func restrictionChecks(j *hmmJudge, s *hmmSpec, hmm *vd.Hmm, x []float64, en *en
 				fmt.Sprintf("Viterbi path %v ends in state %d, final states are %v (transition row of state %d: %v)", path, path[n-1], s.Final, path[n-2], s.Tr[path[n-2]]), j.witness)
 		}
 		for i := 0; i < s.M; i++ {
-			if g := gamma[i].At(n-1).GetFloat64(); !inSet(s.Final, i) && !math.IsInf(g, -1) {
+			if g := gamma[i].At(n - 1).GetFloat64(); !inSet(s.Final, i) && !math.IsInf(g, -1) {
 				cs.Violation(fmt.Sprintf("C15|hmm|PosteriorMarginals|%s|final-restriction", class),
 					fmt.Sprintf("P(state %d at the last position | x) = exp(%v) > 0, final states are %v", i, g, s.Final), j.witness)
 				break
@@ -699,10 +699,10 @@ func buildVectorPdf(t ad.ScalarType, kind string, specs []edSpec, d int) (stat.V
 }
 
 type matrixSpec struct {
-	Hmm   *hmmSpec   `json:"hmm"`
-	D     int        `json:"dim"`
-	VKind string     `json:"vector_pdf"`
-	VSpec [][]edSpec `json:"vector_emissions"`
+	Hmm   *hmmSpec    `json:"hmm"`
+	D     int         `json:"dim"`
+	VKind string      `json:"vector_pdf"`
+	VSpec [][]edSpec  `json:"vector_emissions"`
 	X     [][]float64 `json:"x"`
 }
 
